@@ -125,6 +125,17 @@ DICT_KINDS["anyv-anyv"] = {
 }
 
 
+# no key field at all: any hashable key, tuples (of any length) included
+DICT_KINDS["anykey-int"] = {
+    "keys": [T("x", "y"), T(), 5],
+    "vals": [1, "2"],
+    "knorm": lambda k: k,
+    "vnorm": lambda v: None if v is None else int(v),
+    "invalid_val": "x",
+    "probe": (("Z", "7"), ("Z", 7)),
+}
+
+
 def _any_key(cfg, k):
     return k.lower()
 
@@ -144,6 +155,9 @@ def _dict_field(kind="str-int"):
         return DictField(key_field=StringField(transform_case="lower", transform_strip=True, max_len=3), value_field=IntField(validator=_clamp))
     if kind == "str-any":
         return DictField(key_field=StringField(transform_case="lower", transform_strip=True, max_len=3))
+    if kind == "anykey-int":
+        from cincoconfig import IntField
+        return DictField(value_field=IntField(min=0, max=9))
     return _dict_field_int()
 
 
@@ -245,6 +259,7 @@ def _iterables(contents, full=True):
         out.append(("tuple", T(*c)))
         out.append(("iter", ITER(c)))
         out.append(("gen", GEN(c)))
+        out.append(("legacy-seq", {"$": "legacyseq", "v": list(c)}))
         out.append(("proxy-same", {"$": "ref", "proxy": "same", "items": list(c)}))
         out.append(("proxy-otherfield", {"$": "ref", "proxy": "otherfield", "items": list(c)}))
         out.append(("proxy-othercfg", {"$": "ref", "proxy": "othercfg", "items": list(c)}))
@@ -262,7 +277,7 @@ def list_ops(kind):
         for v in raw[:2]:
             ops.append(["insert", i, v])
     for shape, it in _iterables(contents):
-        if shape not in ("iter", "gen"):
+        if shape not in ("iter", "gen", "legacy-seq"):
             ops.append(["assign", shape, it])
         ops.append(["extend", shape, it])
         ops.append(["iadd", shape, it])
@@ -628,7 +643,7 @@ def model_states(container, kind, maxlen):
 def bounds(tier):
     return {"list_kinds": (["int", "str", "float", "scale"] if tier == "thorough" else ["int", "str", "scale"]) + ["int@default", "str@default-literal", "clamp"],
             "list_maxlen": {"clamp": 2, "int": 5 if tier == "thorough" else 3, "str": 6 if tier == "thorough" else 3, "float": 4, "scale": 2},
-            "dict_kinds": ["str-int", "str-any", "anyv-anyv", "str-int@default", "str-clamp"], "dict_maxlen": 3 if tier == "thorough" else 2}
+            "dict_kinds": ["str-int", "str-any", "anyv-anyv", "str-int@default", "str-clamp", "anykey-int"], "dict_maxlen": 3 if tier == "thorough" else 2}
 
 
 def jobs(tier):
@@ -811,7 +826,7 @@ def _typed_ok(container, w, res):
             return False
         (rk, rv), (nk, nv) = k["probe"]
         res[rk] = rv
-        if nk not in res or V.canon(res[nk]) != V.canon(nv) or rk in res:
+        if nk not in res or V.canon(res[nk]) != V.canon(nv) or (rk != nk and rk in res):
             return False
         del res[nk]
         try:
